@@ -213,7 +213,17 @@ pub fn dispatch(name: &str, args: &[&str]) -> Option<String> {
                 }
             }
             // the port must be free again
-            let rebind = if returned.is_some() { TcpListener::bind(&addr).is_ok() } else { false };
+            let mut rebind = false;
+            if returned.is_some() {
+                // a few attempts: another runner process may hold the port for an instant while probing for a free one
+                for _ in 0..5 {
+                    if TcpListener::bind(&addr).is_ok() {
+                        rebind = true;
+                        break;
+                    }
+                    std::thread::sleep(Duration::from_millis(40));
+                }
+            }
             // in-flight requests received before the signal must still be answered completely
             let mut inflight = 0;
             let mut inflight_ok = 0;
